@@ -40,6 +40,9 @@ type Prog struct {
 	Lemmas    map[string]*Block // "pkgname.lemma"
 	OpaqueSpec map[string]bool  // funcKey of opaque spec functions
 	HeapClasses map[string]bool // "pkgpath.Type" declared with //@ heap Type
+	Assumes    map[string]map[string]*Block // using package path -> "pkgname.Recv.Name" -> assumed contract
+	Ifaces     map[string]*Block            // "pkgpath.Type.Method" or "pkgpath.FuncType." -> contract
+	Axioms     map[string]bool
 	GInit     map[*types.Var]*GlobalInit
 	InitFuncs map[string][]*FuncInfo // pkg path -> init functions in file order
 	Written   map[*types.Var][]token.Position
@@ -72,7 +75,7 @@ func recvTypeName(t types.Type) string {
 
 func LoadProg(root string) (*Prog, error) {
 	p := &Prog{Root: root, Pkgs: map[string]*packages.Package{}, Funcs: map[*types.Func]*FuncInfo{},
-		FuncByKey: map[string]*FuncInfo{}, Blocks: map[string]*Block{}, Lemmas: map[string]*Block{}, OpaqueSpec: map[string]bool{}, HeapClasses: map[string]bool{},
+		FuncByKey: map[string]*FuncInfo{}, Blocks: map[string]*Block{}, Lemmas: map[string]*Block{}, OpaqueSpec: map[string]bool{}, HeapClasses: map[string]bool{}, Assumes: map[string]map[string]*Block{}, Ifaces: map[string]*Block{}, Axioms: map[string]bool{},
 		GInit: map[*types.Var]*GlobalInit{}, InitFuncs: map[string][]*FuncInfo{}, Written: map[*types.Var][]token.Position{},
 		LoopOrd: map[ast.Stmt]int{}, LoopFunc: map[ast.Stmt]*FuncInfo{}, strIntern: map[string]int64{}, Overlays: map[string]string{}}
 	p.Extra = &types.Info{Types: map[ast.Expr]types.TypeAndValue{}, Defs: map[*ast.Ident]types.Object{}, Uses: map[*ast.Ident]types.Object{},
@@ -124,7 +127,21 @@ func LoadProg(root string) (*Prog, error) {
 			switch b.Kind {
 			case "func":
 				p.Blocks[funcKey(pkgPath, b.Recv, b.Name)] = b
+			case "assume":
+				if p.Assumes[pkgPath] == nil {
+					p.Assumes[pkgPath] = map[string]*Block{}
+				}
+				pn := b.RecvPkg
+				if pn == "" {
+					pn = b.PkgName
+				}
+				p.Assumes[pkgPath][pn+"."+b.Recv+"."+b.Name] = b
+			case "iface":
+				p.Ifaces[pkgPath+"."+b.Recv+"."+b.Name] = b
 			case "lemma":
+				if b.Axiom {
+					p.Axioms[b.PkgName+"."+b.Name] = true
+				}
 				p.Lemmas[b.PkgName+"."+b.Name] = b
 			case "spec":
 				hasLoop := false
